@@ -8,6 +8,7 @@
 //!         prost schema. The clock is tokio's paused clock: a stalled write ends by WRITE_TIMEOUT
 //!         when the harness advances it.
 //! kind 5: `extract_next_presence_batch` / `presences_message` through the verif wrappers.
+//! kind 6: the real `send_request` on a substream over an in-memory carrier.
 use super::{gen_rblock, get_varint, limbs, payload, put_varint};
 use crate::util::*;
 use futures::Stream;
@@ -21,10 +22,12 @@ use litep2p::{
         verif::{VerifConnection, VerifServiceInput},
         TransportService,
     },
+    substream::Substream,
     transport::verif::{TransportManager, TransportManagerBuilder},
     types::{
         cid::{Cid, Multihash, Version},
         protocol::ProtocolName,
+        SubstreamId,
     },
     PeerId,
 };
@@ -194,25 +197,52 @@ struct InMsg {
 
 impl InMsg {
     fn encode(&self) -> Vec<u8> {
+        self.encode_with(0)
+    }
+
+    /// `extras` adds what a peer may put into a message and the loop must not care about:
+    /// bit 0 a legacy `blocks` entry (Bitswap 1.0.0), bit 1 `pendingBytes`, bit 2 `full` on the
+    /// wantlist, bit 3 unknown fields (in the message and in a wantlist entry), bit 4 the
+    /// wantlist sent as two `wantlist` fields (protobuf merges them: the entries add up).
+    fn encode_with(&self, extras: u64) -> Vec<u8> {
         let mut out = Vec::new();
+        if extras & 1 != 0 {
+            pb_bytes(2, &payload(999, 50), &mut out);
+        }
         if let Some(entries) = &self.wantlist {
-            let mut wl = Vec::new();
-            for e in entries {
-                let mut eb = Vec::new();
-                pb_bytes(1, &e.block, &mut eb);
-                pb_int(2, i32_wire(e.priority), &mut eb);
-                if e.cancel {
-                    pb_int(3, 1, &mut eb);
+            let cut = if extras & 16 != 0 { entries.len() / 2 } else { entries.len() };
+            for (k, part) in [&entries[..cut], &entries[cut..]].iter().enumerate() {
+                if k == 1 && extras & 16 == 0 {
+                    break;
                 }
-                if e.want_type != 0 {
-                    pb_int(4, i32_wire(e.want_type), &mut eb);
+                let mut wl = Vec::new();
+                for e in part.iter() {
+                    let mut eb = Vec::new();
+                    pb_bytes(1, &e.block, &mut eb);
+                    pb_int(2, i32_wire(e.priority), &mut eb);
+                    if e.cancel {
+                        pb_int(3, 1, &mut eb);
+                    }
+                    if e.want_type != 0 {
+                        pb_int(4, i32_wire(e.want_type), &mut eb);
+                    }
+                    if e.send_dont_have {
+                        pb_int(5, 1, &mut eb);
+                    }
+                    if extras & 8 != 0 {
+                        pb_int(11, 77, &mut eb);
+                    }
+                    pb_bytes(1, &eb, &mut wl);
                 }
-                if e.send_dont_have {
-                    pb_int(5, 1, &mut eb);
+                if extras & 4 != 0 {
+                    pb_int(2, 1, &mut wl);
                 }
-                pb_bytes(1, &eb, &mut wl);
+                pb_bytes(1, &wl, &mut out);
             }
-            pb_bytes(1, &wl, &mut out);
+        }
+        if extras & 8 != 0 {
+            pb_int(9, 12345, &mut out);
+            pb_bytes(10, &[1, 2, 3], &mut out);
         }
         for (prefix, did, dlen) in &self.payload {
             let mut b = Vec::new();
@@ -227,6 +257,9 @@ impl InMsg {
                 pb_int(2, i32_wire(*t), &mut b);
             }
             pb_bytes(4, &b, &mut out);
+        }
+        if extras & 2 != 0 {
+            pb_int(5, 4242, &mut out);
         }
         out
     }
@@ -463,11 +496,94 @@ pub fn gen_node(rng: &mut Rng, thorough: bool) -> Vec<u64> {
     let mut opening = [false; NPEERS];
     let mut out = [false; NPEERS];
     let mut pend = [0usize; NPEERS];
-    for _ in 0..nops {
+    // half of the cases also move the connections and the dial answers
+    let service = rng.chance(50);
+    let mut conn = [1u8; NPEERS];
+    // a few cases carry one bulk command: tens of thousands of entries, so that the shipped
+    // message limit is what splits the real send_request / send_response
+    let bulk_at = if rng.below(1000) < (if thorough { 8 } else { 4 }) { Some(rng.below(nops)) } else { None };
+    // a third of the cases open with a scripted history of one peer (connection lost with a queue
+    // waiting, commands to a peer that is gone, parked dials, ...), random operations follow
+    let mut script: Vec<u64> = Vec::new();
+    let sp = rng.below(NPEERS as u64) as usize;
+    if rng.chance(34) {
+        // 104 / 105: a small request / response (expanded below); 8.. as in the case format;
+        // 60 / 63: the requested substream opens healthy / fails to open; 120..123: dial answers
+        script = match rng.below(12) {
+            0 => vec![104, 8, 9, 105, 60, 105],
+            1 => vec![8, 121, 104, 105, 9, 60, 104],
+            2 => vec![8, 121, 104, 11, 105, 9, 60],
+            3 => vec![10, 122, 104, 105, 8, 9, 104, 60],
+            4 => vec![8, 120, 105, 9, 104, 60],
+            5 => vec![104, 10, 63, 105, 8, 9, 105, 60],
+            6 => vec![8, 123, 105, 104, 11, 121, 104, 9, 60],
+            7 => vec![104, 60, 8, 105, 9, 105, 60],
+            8 => vec![10, 121, 105, 11, 104, 8, 9, 104, 60],
+            9 => vec![104, 8, 121, 105, 9, 60, 104],
+            10 => vec![8, 121, 104, 8, 9, 105, 60],
+            _ => vec![105, 63, 104, 8, 122, 105, 120, 104, 9, 104, 60],
+        };
+        script.reverse();
+    }
+    for opi in 0..nops {
+        if let Some(sop) = script.pop() {
+            let p = sp;
+            c.push(match sop { 104 => 4, 105 => 5, 60 | 63 => 6, 120..=123 => 12, x => x });
+            c.push(p as u64);
+            match sop {
+                104 => {
+                    let n = rng.pick(&[1u64, 2, 3]);
+                    c.push(n);
+                    for _ in 0..n {
+                        let s = gen_cid(rng);
+                        put_cidspec(s.0, s.1, s.2, &s.3, &mut c);
+                        c.push(rng.below(2));
+                    }
+                }
+                105 => {
+                    let n = rng.pick(&[1u64, 2, 4]);
+                    c.push(n);
+                    for _ in 0..n {
+                        let s = gen_cid(rng);
+                        if rng.chance(50) {
+                            c.push(0);
+                            put_cidspec(s.0, s.1, s.2, &s.3, &mut c);
+                            c.push(rng.pick(&[4u64, 10, 100, 1000]));
+                        } else {
+                            c.push(1);
+                            put_cidspec(s.0, s.1, s.2, &s.3, &mut c);
+                            c.push(rng.below(2));
+                        }
+                    }
+                }
+                60 => c.extend([0, 0]),
+                63 => c.extend([3, 0]),
+                120..=123 => c.push(sop - 120),
+                _ => {}
+            }
+            // the generator's picture of the peer after the script: unknown, start afresh
+            if script.is_empty() {
+                conn[p] = 1;
+                inb[p] = false;
+                opening[p] = false;
+                out[p] = false;
+                pend[p] = 0;
+            }
+            let _ = opi;
+            continue;
+        }
         let p = rng.below(NPEERS as u64) as usize;
         let r = rng.below(100);
         // steer towards meaningful operations, keep a few misplaced ones
-        let op = if opening[p] && rng.chance(45) {
+        let op = if bulk_at == Some(opi) {
+            13
+        } else if service && rng.chance(28) {
+            if conn[p] == 0 {
+                rng.pick(&[9u64, 9, 11, 11, 12, 12, 12, 8])
+            } else {
+                rng.pick(&[8u64, 8, 10, 12, 12, 11, 9])
+            }
+        } else if opening[p] && rng.chance(45) {
             6
         } else if !inb[p] && r < 25 {
             1
@@ -486,7 +602,8 @@ pub fn gen_node(rng: &mut Rng, thorough: bool) -> Vec<u64> {
         match op {
             1 => inb[p] = true,
             2 => {
-                c.push(rng.pick(&[0u64, 0, 1, 2, 5, 30]));
+                let extras = if rng.chance(30) { rng.below(32) } else { 0 };
+                c.push(rng.pick(&[0u64, 0, 1, 2, 5, 30]) + 1000 * extras);
                 gen_message(rng, &mut c);
             }
             3 => {
@@ -527,11 +644,51 @@ pub fn gen_node(rng: &mut Rng, thorough: bool) -> Vec<u64> {
                 }
             }
             6 => gen_carrier(rng, true, &mut c),
-            _ => gen_carrier(rng, false, &mut c),
+            7 => gen_carrier(rng, false, &mut c),
+            8 => {
+                if conn[p] != 0 {
+                    conn[p] = 0;
+                    inb[p] = false;
+                    opening[p] = false;
+                    out[p] = false;
+                    pend[p] = 0;
+                }
+            }
+            9 =>
+                if conn[p] == 0 {
+                    conn[p] = 1;
+                },
+            10 =>
+                if conn[p] == 1 {
+                    conn[p] = 2;
+                },
+            11 => {}
+            13 => {
+                let kind = rng.below(3);
+                let m = u64::MAX;
+                let shape = match rng.below(4) {
+                    0 => (1u64, 0x55u64, 0x12u64, (0..32u8).collect::<Vec<u8>>()),
+                    1 => (0, 0x70, 0x12, (0..32u8).map(|k| k ^ 0x5a).collect()),
+                    2 => (1, 0x55, 0x12, vec![7u8; 64]),
+                    _ => (1, m, m, vec![9u8; 64]),
+                };
+                let n = match rng.below(10) {
+                    0 => rng.pick(&[0u64, 1, 2, 3, 700]),
+                    1..=3 => rng.range(40_000, 60_000),
+                    _ => rng.range(60_000, 80_000),
+                };
+                c.extend([kind, n]);
+                put_cidspec(shape.0, shape.1, shape.2, &shape.3, &mut c);
+                c.push(match kind {
+                    2 => rng.pick(&[4u64, 4, 20, 27, 28, 30, 100]),
+                    _ => rng.below(2),
+                });
+            }
+            _ => c.push(rng.below(4)),
         }
         // bookkeeping of the generator only (a rough copy of the loop's state)
         match op {
-            4 | 5 =>
+            4 | 5 | 13 =>
                 if !out[p] {
                     if pend[p] == 0 {
                         opening[p] = true;
@@ -608,7 +765,7 @@ pub fn run_pres(c: &[u64]) -> Option<Vec<u64>> {
             out.push(id);
         }
         match bs::presences_message(batch.clone()) {
-            None => out.extend([0, 0]),
+            None => out.extend([0, 0, 0]),
             Some((msg, count)) => {
                 out.push(msg.len() as u64);
                 let dec = bs::SchemaMessage::decode(&msg[..]).ok()?;
@@ -620,6 +777,7 @@ pub fn run_pres(c: &[u64]) -> Option<Vec<u64>> {
                     put_bytes(&p.cid, &mut out);
                     out.push(p.r#type as u32 as u64);
                 }
+                put_bytes(&msg, &mut out);
             }
         }
     }
@@ -630,13 +788,16 @@ pub fn run_pres(c: &[u64]) -> Option<Vec<u64>> {
 // ------------------------------------------------------------------ kind 4
 
 struct Node {
-    _manager: TransportManager,
+    manager: TransportManager,
     input: VerifServiceInput,
     handle: BitswapHandle,
     fut: Pin<Box<dyn Future<Output = ()>>>,
     finished: bool,
     peers: Vec<PeerId>,
     conns: Vec<VerifConnection>,
+    /// the service's connection to the peer: 0 none, 1 usable, 2 killed
+    conn_state: Vec<u8>,
+    next_conn: usize,
     inbound: Vec<Option<Carrier>>,
     /// carrier of the outbound substream last given to the loop, per peer
     outbound: Vec<Option<Carrier>>,
@@ -652,6 +813,10 @@ fn mk_peer(i: u64) -> PeerId {
     // fine because peers appear in traces by index only
     let _ = i;
     PeerId::random()
+}
+
+fn peer_addr(i: usize) -> multiaddr::Multiaddr {
+    format!("/ip4/10.0.0.{}/tcp/{}", i + 1, 4000 + i).parse().unwrap()
 }
 
 impl Node {
@@ -675,13 +840,15 @@ impl Node {
             conns.push(input.connection_established(*p, i + 1, addr, 256)?);
         }
         let mut n = Node {
-            _manager: manager,
+            manager,
             input,
             handle,
             fut,
             finished: false,
             peers,
             conns,
+            conn_state: vec![1; NPEERS],
+            next_conn: 10,
             inbound: vec![None; NPEERS],
             outbound: vec![None; NPEERS],
             open_req: vec![None; NPEERS],
@@ -787,41 +954,70 @@ fn enc_written(node: &Node, p: usize, bytes: &[u8], out: &mut Vec<u64>) -> Optio
         let nwl = m.wantlist.as_ref().map(|w| w.entries.len()).unwrap_or(0);
         if nwl > 0 || (m.payload.is_empty() && m.block_presences.is_empty()) {
             let w = m.wantlist.as_ref()?;
-            e.extend([1, len, w.entries.len() as u64]);
-            for x in w.entries.iter() {
-                put_bytes(&x.block, &mut e);
-                e.extend([
-                    x.priority as u32 as u64,
-                    x.cancel as u64,
-                    x.want_type as u32 as u64,
-                    x.send_dont_have as u64,
-                ]);
-            }
+            e.extend([1, len]);
+            let entries: Vec<Vec<u64>> = w
+                .entries
+                .iter()
+                .map(|x| {
+                    let mut v = Vec::new();
+                    put_bytes(&x.block, &mut v);
+                    v.extend([
+                        x.priority as u32 as u64,
+                        x.cancel as u64,
+                        x.want_type as u32 as u64,
+                        x.send_dont_have as u64,
+                    ]);
+                    v
+                })
+                .collect();
+            put_runs(entries, &mut e);
             e.push(w.full as u64);
             if !m.payload.is_empty() || !m.block_presences.is_empty() {
                 e.push(666_666_666);
             }
         } else if !m.block_presences.is_empty() {
-            e.extend([2, len, m.block_presences.len() as u64]);
-            for x in m.block_presences.iter() {
-                put_bytes(&x.cid, &mut e);
-                e.push(x.r#type as u32 as u64);
-            }
+            e.extend([2, len]);
+            let entries: Vec<Vec<u64>> = m
+                .block_presences
+                .iter()
+                .map(|x| {
+                    let mut v = Vec::new();
+                    put_bytes(&x.cid, &mut v);
+                    v.push(x.r#type as u32 as u64);
+                    v
+                })
+                .collect();
+            put_runs(entries, &mut e);
             if !m.payload.is_empty() || m.wantlist.is_none() {
                 e.push(666_666_666);
             }
         } else {
-            e.extend([3, len, m.payload.len() as u64]);
-            for x in m.payload.iter() {
-                // which block handed to send_response is this?
-                let found = node.sent_blocks.iter().rev().find(|(q, _, cid, data)| {
-                    *q == p && data == &x.data && prefix_of(cid) == x.prefix
-                });
-                e.push(found.map(|f| f.1).unwrap_or(777_777_777));
-                put_bytes(&x.prefix, &mut e);
-                e.push(x.data.len() as u64);
-                e.push(found.is_some() as u64);
-            }
+            e.extend([3, len]);
+            // which block handed to send_response is this? (the same question for a run of equal
+            // entries is asked once)
+            let mut last: Option<(&Vec<u8>, &Vec<u8>, Option<u64>)> = None;
+            let entries: Vec<Vec<u64>> = m
+                .payload
+                .iter()
+                .map(|x| {
+                    let found = match last {
+                        Some((pf, d, f)) if pf == &x.prefix && d == &x.data => f,
+                        _ => node
+                            .sent_blocks
+                            .iter()
+                            .rev()
+                            .find(|(q, _, cid, data)| *q == p && data == &x.data && prefix_of(cid) == x.prefix)
+                            .map(|f| f.1),
+                    };
+                    last = Some((&x.prefix, &x.data, found));
+                    let mut v = vec![found.unwrap_or(777_777_777)];
+                    put_bytes(&x.prefix, &mut v);
+                    v.push(x.data.len() as u64);
+                    v.push(found.is_some() as u64);
+                    v
+                })
+                .collect();
+            put_runs(entries, &mut e);
             if m.wantlist.is_none() {
                 e.push(666_666_666);
             }
@@ -834,6 +1030,46 @@ fn enc_written(node: &Node, p: usize, bytes: &[u8], out: &mut Vec<u64>) -> Optio
     }
     out.push(partial);
     Some(())
+}
+
+/// Run-length encoding of equal neighbours: count-prefixed list of `count entry`.
+fn put_runs(entries: Vec<Vec<u64>>, out: &mut Vec<u64>) {
+    let mut runs: Vec<(u64, Vec<u64>)> = Vec::new();
+    for e in entries {
+        match runs.last_mut() {
+            Some((k, cur)) if *cur == e => *k += 1,
+            _ => runs.push((1, e)),
+        }
+    }
+    out.push(runs.len() as u64);
+    for (k, e) in runs {
+        out.push(k);
+        out.extend(e);
+    }
+}
+
+/// The runs of a bulk command: (run index, length), lengths 1, 2, 3, ... adding up to n.
+fn bulk_runs(n: u64) -> Vec<(u64, u64)> {
+    let mut v = Vec::new();
+    let (mut j, mut left) = (0u64, n);
+    while left > 0 {
+        let len = std::cmp::min(j + 1, left);
+        v.push((j, len));
+        left -= len;
+        j += 1;
+    }
+    v
+}
+
+fn bulk_cid(base: &Cid, j: u64) -> Option<Cid> {
+    let mut dg = base.hash().digest().to_vec();
+    if dg.len() < 2 {
+        return None;
+    }
+    dg[0] = (j / 256 % 256) as u8;
+    dg[1] = (j % 256) as u8;
+    let mh = Multihash::wrap(base.hash().code(), &dg).ok()?;
+    Cid::new(base.version(), base.codec(), mh).ok()
 }
 
 /// (version, codec, hash code) of prefix bytes, read leniently (wrapping, no minimality check).
@@ -928,6 +1164,7 @@ async fn run_node_async(c: &[u64]) -> Option<Vec<u64>> {
         let peer = node.peers[p];
         let mut in_msg: Option<InMsg> = None;
         match op {
+            1 if node.conn_state[p] == 0 => {}
             1 => {
                 let carrier = Carrier::default();
                 node.next_inbound += 1;
@@ -935,10 +1172,12 @@ async fn run_node_async(c: &[u64]) -> Option<Vec<u64>> {
                 node.inbound[p] = Some(carrier);
             }
             2 => {
-                let split = rd.n()? as usize;
+                // split + 1000 * extras (see InMsg::encode_with)
+                let raw = rd.n()?;
+                let (split, extras) = ((raw % 1000) as usize, raw / 1000);
                 let m = rd.message()?;
                 if let Some(carrier) = node.inbound[p].clone() {
-                    let f = frame(&m.encode());
+                    let f = frame(&m.encode_with(extras));
                     if split > 0 && split < f.len() {
                         carrier.feed(&f[..split]);
                         // nothing may be delivered from a frame that is not complete yet
@@ -1068,6 +1307,88 @@ async fn run_node_async(c: &[u64]) -> Option<Vec<u64>> {
                     c.set_write(if mode == 0 { None } else { Some(budget) }, mode == 2);
                 }
             }
+            8 =>
+                if node.conn_state[p] != 0 {
+                    node.input.connection_closed(peer, &node.conns[p]);
+                    node.conn_state[p] = 0;
+                    node.inbound[p] = None;
+                    node.outbound[p] = None;
+                    node.open_req[p] = None;
+                },
+            9 =>
+                if node.conn_state[p] == 0 {
+                    node.next_conn += 1;
+                    let id = node.next_conn;
+                    node.conns[p] = node.input.connection_established(peer, id, peer_addr(p), 256)?;
+                    node.conn_state[p] = 1;
+                },
+            10 =>
+                if node.conn_state[p] == 1 {
+                    node.conns[p].kill();
+                    node.conn_state[p] = 2;
+                },
+            11 => {
+                node.input.dial_failure(peer, vec![peer_addr(p)]);
+            }
+            12 => {
+                let tag = rd.n()? as usize;
+                if tag > 3 {
+                    return None;
+                }
+                node.manager.verif_force_peer(peer, tag, peer_addr(p));
+            }
+            13 => {
+                let (kind, n) = (rd.n()?, rd.n()?);
+                let base = rd.cid()?;
+                let x = rd.n()?;
+                if n > 80_000 || base.hash().digest().len() < 2 {
+                    return None;
+                }
+                match kind {
+                    0 => {
+                        let w = match x {
+                            0 => WantType::Block,
+                            1 => WantType::Have,
+                            _ => return None,
+                        };
+                        let mut cids = Vec::with_capacity(n as usize);
+                        for (j, len) in bulk_runs(n) {
+                            let cid = bulk_cid(&base, j)?;
+                            cids.extend(std::iter::repeat((cid, w)).take(len as usize));
+                        }
+                        node.handle.send_request(peer, cids).await;
+                    }
+                    1 => {
+                        let presence = match x {
+                            0 => BlockPresenceType::Have,
+                            1 => BlockPresenceType::DontHave,
+                            _ => return None,
+                        };
+                        let mut entries = Vec::with_capacity(n as usize);
+                        for (j, len) in bulk_runs(n) {
+                            let cid = bulk_cid(&base, j)?;
+                            entries.extend(std::iter::repeat(ResponseType::Presence { cid, presence }).take(len as usize));
+                        }
+                        node.handle.send_response(peer, entries).await;
+                    }
+                    2 => {
+                        if !(4..=(8 << 20)).contains(&x) {
+                            return None;
+                        }
+                        let mut entries = Vec::with_capacity(n as usize);
+                        for (j, len) in bulk_runs(n) {
+                            let cid = bulk_cid(&base, j)?;
+                            let data = payload((opi as u64) << 16 | (j & 0xffff), x);
+                            node.sent_blocks.push((p, j, cid, data.clone()));
+                            entries.extend(
+                                std::iter::repeat(ResponseType::Block { cid, block: data }).take(len as usize),
+                            );
+                        }
+                        node.handle.send_response(peer, entries).await;
+                    }
+                    _ => return None,
+                }
+            }
             _ => return None,
         }
         let evs = node.settle().await;
@@ -1085,4 +1406,155 @@ pub fn run_node(c: &[u64]) -> Option<Vec<u64>> {
     let rt = tokio::runtime::Builder::new_current_thread().enable_time().start_paused(true).build().unwrap();
     // unconstrained: tokio's cooperative budget would make channel polls return Pending spuriously
     rt.block_on(tokio::task::unconstrained(run_node_async(c)))
+}
+
+// ------------------------------------------------------------------ kind 6: send_request, one message
+
+pub fn gen_wants(rng: &mut Rng, thorough: bool) -> Vec<u64> {
+    // limits on both sides of the size of the one message (0-60 wants of 8-94 bytes; thorough 0-300)
+    let mm = rng.pick(&[0u64, 1, 2, 3, 44, 45, 46, 90, 200, 500, 1000, 1500, 2000, 3000, 5000, 8000, 12_000, 30_000, 1 << 40]);
+    let n = rng.range(0, if thorough { 300 } else { 60 });
+    let mut c = vec![6, mm, n];
+    for _ in 0..n {
+        let s = gen_cid(rng);
+        put_cidspec(s.0, s.1, s.2, &s.3, &mut c);
+        c.push(rng.below(2));
+    }
+    c
+}
+
+/// The real `send_request` on a substream over an in-memory carrier whose codec has the message
+/// size limit of the case.
+pub fn run_wants(c: &[u64]) -> Option<Vec<u64>> {
+    let mut rd = Rd { c, i: 1 };
+    let mm = rd.n()? as usize;
+    let n = rd.n()? as usize;
+    if n > c.len() {
+        return None;
+    }
+    let mut orig = Vec::new();
+    for _ in 0..n {
+        let cid = rd.cid()?;
+        let w = match rd.n()? {
+            0 => WantType::Block,
+            1 => WantType::Have,
+            _ => return None,
+        };
+        orig.push((cid, w));
+    }
+    if rd.i != c.len() {
+        return None;
+    }
+    let carrier = Carrier::default();
+    let mut substream = Substream::new_verif(
+        PeerId::random(),
+        SubstreamId::from(1usize),
+        Box::new(carrier.clone()),
+        ProtocolCodec::UnsignedVarint(Some(mm)),
+    );
+    let rt = tokio::runtime::Builder::new_current_thread().enable_time().start_paused(true).build().unwrap();
+    let res = rt.block_on(bs::send_request(&mut substream, orig.clone()));
+    let written = carrier.take_written();
+    let mut out = vec![6u64];
+    if res.is_err() {
+        out.extend([0, written.len() as u64]);
+        return Some(out);
+    }
+    // one frame: length prefix, body
+    let mut len: u64 = 0;
+    let mut used = 0;
+    for (i, b) in written.iter().enumerate().take(10) {
+        len |= ((*b & 0x7f) as u64) << (7 * i);
+        used = i + 1;
+        if b & 0x80 == 0 {
+            break;
+        }
+    }
+    let body = written.get(used..)?;
+    if body.len() as u64 != len {
+        out.push(555_555_555);
+        return Some(out);
+    }
+    out.extend([1, len]);
+    let dec = bs::SchemaMessage::decode(body).ok()?;
+    let w = dec.wantlist.as_ref()?;
+    out.push(w.entries.len() as u64);
+    for x in w.entries.iter() {
+        put_bytes(&x.block, &mut out);
+        out.extend([x.priority as u32 as u64, x.cancel as u64, x.want_type as u32 as u64, x.send_dont_have as u64]);
+    }
+    out.push(w.full as u64);
+    put_bytes(body, &mut out);
+    if !dec.payload.is_empty() || !dec.block_presences.is_empty() {
+        out.push(666_666_666);
+    }
+    Some(out)
+}
+
+// ------------------------------------------------------------------ kind 7: blocks_message, byte for byte
+
+pub fn gen_blocks_msg(rng: &mut Rng) -> Vec<u64> {
+    let n = rng.pick(&[0u64, 1, 1, 2, 3, 6]);
+    let mut c = vec![7, n];
+    for _ in 0..n {
+        let s = gen_cid(rng);
+        put_cidspec(s.0, s.1, s.2, &s.3, &mut c);
+        let dl = rng.pick(&[0u64, 0, 1, 5, 40, 127, 128, 300]);
+        c.push(dl);
+        for _ in 0..dl {
+            c.push(rng.below(256));
+        }
+    }
+    c
+}
+
+pub fn run_blocks_msg(c: &[u64]) -> Option<Vec<u64>> {
+    let mut rd = Rd { c, i: 1 };
+    let n = rd.n()? as usize;
+    if n > c.len() {
+        return None;
+    }
+    let mut blocks = Vec::new();
+    for _ in 0..n {
+        let cid = rd.cid()?;
+        let data = rd.bytes()?;
+        blocks.push((cid, data));
+    }
+    if rd.i != c.len() {
+        return None;
+    }
+    let mut out = vec![7u64];
+    match bs::blocks_message(blocks) {
+        None => out.push(0),
+        Some((msg, _)) => put_bytes(&msg, &mut out),
+    }
+    Some(out)
+}
+
+// ------------------------------------------------------------------ helpers of kind 8
+
+/// `cidspec t` with t in {0, 1} (a want or a presence).
+pub fn gen_want(rng: &mut Rng, c: &mut Vec<u64>) {
+    let s = gen_cid(rng);
+    put_cidspec(s.0, s.1, s.2, &s.3, c);
+    c.push(rng.below(2));
+}
+
+/// A count-prefixed list of `cidspec t` starting at `at`; the list and the index behind it.
+pub fn read_wants(c: &[u64], at: usize) -> Option<(Vec<(Cid, u64)>, usize)> {
+    let mut rd = Rd { c, i: at };
+    let n = rd.n()? as usize;
+    if n > c.len() {
+        return None;
+    }
+    let mut v = Vec::new();
+    for _ in 0..n {
+        let cid = rd.cid()?;
+        let t = rd.n()?;
+        if t > 1 {
+            return None;
+        }
+        v.push((cid, t));
+    }
+    Some((v, rd.i))
 }
